@@ -65,16 +65,23 @@ CanMutA == Plain /\ Room
 CanMutB == Plain /\ bl /\ Room
 
 ------------------------------------------------------------------------------------------
+(* Object classes (round 4: mixed-class elements).  Keys, values and probes are handed over as objects of one of two
+   comparison-compatible classes: 1 = spif_str, 2 = spif_url (a url IS a str and compares by its text).  S: the dictionary
+   is "keyed by object comparison", so the class of an argument or of a stored object must never show in any result; the
+   class arguments below therefore do not enter the next-state or the return value at all - that IS the specification.
+   (Only while no copy is live may an argument be a url: model bound.) *)
+Classes == 1 .. 2
+ClsOK(c) == c \in Classes /\ (IF c = 1 THEN TRUE ELSE ~bl)
 (* mutators of A *)
 \* set(k, v); the caller then scribbles over its own key and value objects and deletes them, all inside the step
-OpSet(k, v) == LET r == SetRes(a, k, v) IN
-               /\ CanMutA /\ StepA("set", <<k, v>>, r.replaced, r.m)
+OpSet(k, v, kc, vc) == LET r == SetRes(a, k, v) IN
+               /\ CanMutA /\ ClsOK(kc) /\ ClsOK(vc) /\ StepA("set", <<k, v, kc, vc>>, r.replaced, r.m)
 \* C: set(pair, NULL) unpacks the pair
-OpSetPair(k, v) == LET r == SetRes(a, k, v) IN
-               /\ CanMutA /\ StepA("set_pair", <<k, v>>, r.replaced, r.m)
+OpSetPair(k, v, kc, vc) == LET r == SetRes(a, k, v) IN
+               /\ CanMutA /\ ClsOK(kc) /\ ClsOK(vc) /\ StepA("set_pair", <<k, v, kc, vc>>, r.replaced, r.m)
 \* set(k, v) where the caller keeps its two objects for a while ...
-OpSetKeep(k, v) == LET r == SetRes(a, k, v) IN
-               /\ CanMutA /\ ~bl /\ Step("set_keep", <<k, v>>, r.replaced, r.m, b, bl, it, 1)
+OpSetKeep(k, v, kc, vc) == LET r == SetRes(a, k, v) IN
+               /\ CanMutA /\ ~bl /\ ClsOK(kc) /\ ClsOK(vc) /\ Step("set_keep", <<k, v, kc, vc>>, r.replaced, r.m, b, bl, it, 1)
 \* ... changes them ...
 OpCallerMutates == /\ held = 1 /\ Step("caller_mutates", <<>>, TRUE, a, b, bl, it, 2)       \* S: no-op on the map
 \* ... and deletes them
@@ -85,30 +92,36 @@ OpCallerDeletes == /\ held \in {1, 2} /\ Step("caller_deletes", <<>>, TRUE, a, b
 \* set(k, get(j)): the value argument is the value object the map stores under j (j = k: the touch idiom)
 OpSetFrom(k, j) == LET r == SetRes(a, k, a[j]) IN
                /\ CanMutA /\ ~bl /\ Has(a, j) /\ StepA("set_from", <<k, j>>, r.replaced, r.m)
+\* Aliasing at depth 2 (round 4): set(k, c) where c is a COMPONENT object of the value stored under j (the host part of a
+\* stored url whose text is all host) - or that value itself when it has no such component (a plain str).  The component
+\* has the same text, so the effect is that of set_from.
+OpSetComponent(k, j) == LET r == SetRes(a, k, a[j]) IN
+               /\ CanMutA /\ ~bl /\ Has(a, j) /\ StepA("set_component", <<k, j>>, r.replaced, r.m)
 \* set(p, NULL) where p is the map's OWN pair for j (as handed out by its iterator): nothing changes
 OpSetOwnPair(j) == /\ CanMutA /\ ~bl /\ Has(a, j) /\ StepA("set_own_pair", <<j>>, TRUE, a)
 \* set(key object of the map's own pair for j, fresh v)
-OpSetOwnKey(j, v) == LET r == SetRes(a, j, v) IN
-               /\ CanMutA /\ ~bl /\ Has(a, j) /\ StepA("set_own_key", <<j, v>>, r.replaced, r.m)
+OpSetOwnKey(j, v, vc) == LET r == SetRes(a, j, v) IN
+               /\ CanMutA /\ ~bl /\ Has(a, j) /\ ClsOK(vc) /\ StepA("set_own_key", <<j, v, vc>>, r.replaced, r.m)
 \* remove(key object of the map's own pair for j)
 OpRemoveOwnKey(j) == LET r == RemRes(a, j) IN
                /\ CanMutA /\ ~bl /\ Has(a, j) /\ StepA("remove_own_key", <<j>>, r.ret, r.m)
 \* Macro step for the size sweeps (round 3): set(k, v) for k = lo, lo+st, .. <= hi, in that order, each with fresh
-\* caller objects that are deleted afterwards.  ret = how many of them replaced an entry.
+\* caller objects that are deleted afterwards.  ret = how many of them replaced an entry.  mix: 1 all objects are strs,
+\* 2 all are urls, 3 the objects for odd keys are urls and those for even keys strs.
 FillKeys(lo, hi, st) == {k \in lo .. hi : (k - lo) % st = 0}
-OpFillSet(lo, hi, st, v) ==
-               /\ CanMutA /\ ~bl /\ lo \in Keys /\ hi \in Keys /\ lo <= hi /\ st >= 1
-               /\ StepA("fill_set", <<lo, hi, st, v>>, Cardinality({k \in FillKeys(lo, hi, st) : a[k] # ABSENT}),
+OpFillSet(lo, hi, st, v, mix) ==
+               /\ CanMutA /\ ~bl /\ lo \in Keys /\ hi \in Keys /\ lo <= hi /\ st >= 1 /\ mix \in 1 .. 3
+               /\ StepA("fill_set", <<lo, hi, st, v, mix>>, Cardinality({k \in FillKeys(lo, hi, st) : a[k] # ABSENT}),
                         [k \in Keys |-> IF k \in FillKeys(lo, hi, st) THEN v ELSE a[k]])
-OpRemove(k) == LET r == RemRes(a, k) IN
-               /\ CanMutA /\ StepA("remove", <<k>>, r.ret, r.m)          \* the returned pair is the caller's
+OpRemove(k, c) == LET r == RemRes(a, k) IN
+               /\ CanMutA /\ ClsOK(c) /\ StepA("remove", <<k, c>>, r.ret, r.m)          \* the returned pair is the caller's
 OpDone      == /\ CanMutA /\ StepA("done", <<>>, TRUE, EmptyMap)         \* C06: empty and reusable
 
 (* queries on A: also while the caller still holds (changed) argument objects or an iterator is alive *)
 Anytime       == TRUE
-OpGet(k)      == /\ Anytime /\ StepQ("get", <<k>>, Lookup(a, k))
-OpHasKey(k)   == /\ Plain /\ StepQ("has_key", <<k>>, Has(a, k))
-OpHasValue(v) == /\ it = NIL /\ StepQ("has_value", <<v>>, \E k \in Keys : a[k] = v)
+OpGet(k, c)      == /\ Anytime /\ ClsOK(c) /\ StepQ("get", <<k, c>>, Lookup(a, k))
+OpHasKey(k, c)   == /\ Plain /\ ClsOK(c) /\ StepQ("has_key", <<k, c>>, Has(a, k))
+OpHasValue(v, c) == /\ it = NIL /\ ClsOK(c) /\ StepQ("has_value", <<v, c>>, \E k \in Keys : a[k] = v)
 OpCount       == /\ Plain /\ StepQ("count", <<>>, Size(a))
 \* C: the listing calls append to a caller-supplied destination list and return that same list, or create a list when NULL
 \* is passed.  The destination is described by three arguments:
@@ -156,13 +169,16 @@ OpAdopt      == /\ Plain /\ bl /\ Step("adopt", <<>>, TRUE, b, EmptyMap, FALSE, 
 
 Init == a = EmptyMap /\ b = EmptyMap /\ bl = FALSE /\ it = NIL /\ held = 0
 
-Next == \/ \E k \in Keys, v \in Vals : OpSet(k, v) \/ OpSetPair(k, v) \/ OpSetKeep(k, v) \/ OpBSet(k, v)
-        \/ \E k \in Keys, j \in Keys : OpSetFrom(k, j)
+Next == \/ \E k \in Keys, v \in Vals : OpBSet(k, v)
+        \/ \E k \in Keys, v \in Vals, kc \in Classes, vc \in Classes : OpSet(k, v, kc, vc) \/ OpSetPair(k, v, kc, vc) \/ OpSetKeep(k, v, kc, vc)
+        \/ \E k \in Keys, j \in Keys : OpSetFrom(k, j) \/ OpSetComponent(k, j)
         \/ \E j \in Keys : OpSetOwnPair(j) \/ OpRemoveOwnKey(j)
-        \/ \E j \in Keys, v \in Vals : OpSetOwnKey(j, v)
-        \/ \E lo \in Keys, hi \in Keys, st \in 1 .. 2, v \in Vals : (st = 1 \/ hi - lo >= 2) /\ OpFillSet(lo, hi, st, v)
-        \/ \E k \in ProbeKeys : OpRemove(k) \/ OpGet(k) \/ OpHasKey(k) \/ OpBRemove(k) \/ OpBGet(k)
-        \/ \E v \in ProbeVals : OpHasValue(v)
+        \/ \E j \in Keys, v \in Vals, vc \in Classes : OpSetOwnKey(j, v, vc)
+        \/ \E lo \in Keys, hi \in Keys, st \in 1 .. 2, v \in Vals, mix \in {1, 3} :
+               (st = 1 \/ hi - lo >= 2) /\ (mix = 1 \/ v = 1) /\ OpFillSet(lo, hi, st, v, mix)
+        \/ \E k \in ProbeKeys : OpBRemove(k) \/ OpBGet(k)
+        \/ \E k \in ProbeKeys, c \in Classes : OpRemove(k, c) \/ OpGet(k, c) \/ OpHasKey(k, c)
+        \/ \E v \in ProbeVals, c \in Classes : OpHasValue(v, c)
         \/ \E np \in {NODEST} \cup PriorCount, dc \in {0} \cup DestClass, reps \in Reps :
                OpGetKeys(np, dc, reps) \/ OpGetValues(np, dc, reps) \/ OpGetPairs(np, dc, reps)
         \/ OpCallerMutates \/ OpCallerDeletes \/ OpDone \/ OpCount
